@@ -247,7 +247,8 @@ class ForwardScheduler(IScheduler):
             min_date: datetime,
             resource_usage: _ResourceUsage,
             calculated: List[int],
-            in_progress: List[int]
+            in_progress: List[int],
+            scope: WBS
     ):
         if id(_task) in calculated:
             return
@@ -264,12 +265,15 @@ class ForwardScheduler(IScheduler):
             prerequisites += [p for p in t.predecessors]
 
         for pred in prerequisites:
-            self.__forward_pass(pred, min_date, resource_usage, calculated, in_progress)
+            # A predecessor outside the scheduled WBS is given: its dates are read, but it is never scheduled here
+            # (nor are the tasks it waits for - they may be the caller's own tasks, of which this WBS is a copy)
+            if pred.wbs is scope:
+                self.__forward_pass(pred, min_date, resource_usage, calculated, in_progress, scope)
 
         max_predecessor_ends = max([t.end for t in prerequisites if t.end is not None] + [min_date])
 
         for ch in _task.children:
-            self.__forward_pass(ch, min_date, resource_usage, calculated, in_progress)
+            self.__forward_pass(ch, min_date, resource_usage, calculated, in_progress, scope)
 
         resource = self.__resources.setdefault(_task.resource, Resource(_task.resource))
 
@@ -332,7 +336,7 @@ class ForwardScheduler(IScheduler):
         forward_resource_usage = _ResourceUsage()
         calculated = []
         for t in forward.roots:
-            self.__forward_pass(t, self.__start, forward_resource_usage, calculated, [])
+            self.__forward_pass(t, self.__start, forward_resource_usage, calculated, [], forward)
 
         return Schedule(
             forward,
@@ -434,7 +438,8 @@ class BackwardScheduler(IScheduler):
             min_date: datetime,
             resource_usage: _ResourceUsage,
             calculated: List[int],
-            in_progress: List[int]
+            in_progress: List[int],
+            scope: WBS
     ):
         if id(_task) in calculated:
             return
@@ -451,12 +456,14 @@ class BackwardScheduler(IScheduler):
             followers += [p for p in t.successors]
 
         for succ in followers:
-            self.__backward_pass(succ, min_date, resource_usage, calculated, in_progress)
+            # A successor outside the scheduled WBS is given: its dates are read, but it is never scheduled here
+            if succ.wbs is scope:
+                self.__backward_pass(succ, min_date, resource_usage, calculated, in_progress, scope)
 
         min_successor_starts = min([t.start for t in followers if t.start is not None] + [min_date])
 
         for ch in reversed(_task.children):
-            self.__backward_pass(ch, min_date, resource_usage, calculated, in_progress)
+            self.__backward_pass(ch, min_date, resource_usage, calculated, in_progress, scope)
 
         resource = self.__resources.setdefault(_task.resource, Resource(_task.resource))
 
@@ -524,7 +531,7 @@ class BackwardScheduler(IScheduler):
 
         calculated = []
         for i in range(len(backward_roots) - 1, -1, -1):
-            self.__backward_pass(backward_roots[i], self.__end, backward_resource_usage, calculated, [])
+            self.__backward_pass(backward_roots[i], self.__end, backward_resource_usage, calculated, [], backward)
 
         return Schedule(
             backward,
